@@ -159,7 +159,7 @@ theorem svdIdentity_spec (A : Op 𝕜) (dt : DType) (n : Nat) (hc : A.core = .ey
     rw [den_annot_f, den_eye_f, MatF.toMatrix_eyeM]
   have hS : MatF.toMatrix n n T.S.den.f = diagonal (fun _ : Fin n => (((1 : ℝ) : ℝ) : 𝕜)) := by
     show MatF.toMatrix n n (Op.diag A.dtype A.rows (fun _ => (1 : 𝕜))).den.f = _
-    rw [den_diag_f, toMatrix_diagM]
+    rw [den_diag_f, toMatrix_diagM_svd]
     simp
   have hA : MatF.toMatrix n n A.den.f = (1 : Matrix (Fin n) (Fin n) 𝕜) := by
     rw [← Op.core_den A, hc, den_eye_f, MatF.toMatrix_eyeM]
@@ -215,13 +215,13 @@ theorem svdDiagonal_spec (P : Params 𝕜) (habs : ∀ z : 𝕜, P.abs z = ((‖
     simp only [hc]
   have hU : U = diagonal (fun i : Fin n => phaseOf (d i.val)) := by
     show MatF.toMatrix n n T.U.den.f = _
-    rw [hT, den_annot_f, den_diag_f, toMatrix_diagM]
+    rw [hT, den_annot_f, den_diag_f, toMatrix_diagM_svd]
     congr 1
     funext i
     simp only [habs, hinv, phaseOf]
   have hS : Sg = diagonal (fun i : Fin n => ((‖d i.val‖ : ℝ) : 𝕜)) := by
     show MatF.toMatrix n n T.S.den.f = _
-    rw [hT, den_diag_f, toMatrix_diagM]
+    rw [hT, den_diag_f, toMatrix_diagM_svd]
     congr 1
     funext i
     exact habs _
@@ -229,7 +229,7 @@ theorem svdDiagonal_spec (P : Params 𝕜) (habs : ∀ z : 𝕜, P.abs z = ((‖
     show MatF.toMatrix n n T.V.den.f = _
     rw [hT, den_annot_f, den_eye_f, MatF.toMatrix_eyeM]
   have hA : MatF.toMatrix n n A.den.f = diagonal (fun i : Fin n => d i.val) := by
-    rw [← Op.core_den A, hc, den_diag_f, toMatrix_diagM]
+    rw [← Op.core_den A, hc, den_diag_f, toMatrix_diagM_svd]
   refine ⟨fun alg => by simp [svdRule, hc], ?_, ?_, hV, hS, fun i => norm_nonneg _, ?_⟩
   · rw [hU, diagonal_conjTranspose, diagonal_mul_diagonal, ← diagonal_one]
     congr 1
@@ -315,7 +315,7 @@ theorem svdDense_spec (P : Params 𝕜) (A : Op 𝕜)
     exact toMatrix_selCols A.cols r o.V idx hlt hnd hlen
   have hSg : Sg = diagonal ((fun j : Fin r => o.s j.val) ∘ e) := by
     show MatF.toMatrix idx.length idx.length res.2.S.den.f = _
-    rw [hSden, toMatrix_diagM]
+    rw [hSden, toMatrix_diagM_svd]
     rfl
   have hidx_lt : ∀ i : Fin k, idx.getD i.val 0 < r := by
     intro i
